@@ -16,7 +16,10 @@ RULE = ("thread programs = ordered pairs over the operation alphabet {to_pandas(
         "fresh handle of a 2-row-group, 4-column (int, two categoricals, string) dataset, plus two threads calling "
         "writer.make_part_file with one shared schema/fmd; all schedules with 0 and 1 preemptions at every source "
         "line of the traced files (quick: 9 pairs incl. every handle-deriving / memoising operation; thorough: all "
-        "ordered pairs at bound 1, the deriving pairs at bound 2, three threads at bound 1); states = scheduling "
+        "ordered pairs at bound 1, the deriving pairs at bound 2, three threads at bound 1); in addition all "
+        "schedules with 2 preemptions placed at focus points = lines of frames that received the shared object "
+        "(handle, one of its attribute objects, the metadata object) as an argument (quick: the part-file pair; "
+        "thorough: the 9 quick pairs and the part-file pair, the latter also at full bound 2); states = scheduling "
         "points visited, transitions = executions (each a complete run of the real threads); oracle: every call's "
         "result equals its sequential result, no call raises, the shared handle still reads correctly afterwards, "
         "part-file bytes equal the sequential bytes")
@@ -40,12 +43,17 @@ def explore(run, tier):
         progs = [list(p) for p in QUICK_PAIRS]
         bound2 = set()
         progs3 = []
+    # fbound: preemption bound for schedules whose preemptions all lie at focus points (frames that received the
+    # shared handle / metadata object as an argument)
+    focus2 = set(QUICK_PAIRS) if tier == "thorough" else set()
     initial = []
     for pr in progs:
-        initial.append({"prog": pr, "sched": [], "bound": 2 if tuple(pr) in bound2 else 1, "expect": None})
+        initial.append({"prog": pr, "sched": [], "bound": 2 if tuple(pr) in bound2 else 1, "expect": None,
+                        "fbound": 2 if tuple(pr) in focus2 else 0, "allfocus": True})
     for pr in progs3:
-        initial.append({"prog": pr, "sched": [], "bound": 1, "expect": None})
-    initial.append({"prog": ["part_file", "part_file"], "sched": [], "bound": 2 if tier == "thorough" else 1, "expect": None})
+        initial.append({"prog": pr, "sched": [], "bound": 1, "expect": None, "fbound": 0, "allfocus": True})
+    initial.append({"prog": ["part_file", "part_file"], "sched": [], "bound": 2 if tier == "thorough" else 1,
+                    "expect": None, "fbound": 2, "allfocus": True})
 
     def on_result(point, res, submit):
         if res.get("outcome") in ("crash", "timeout", "harness_error"):
@@ -63,18 +71,24 @@ def explore(run, tier):
         else:
             st["states"] += len(en) - last - 1
         dig = res["digests"]
+        foc = res.get("focus") or []
+        fb = point.get("fbound", 0)
         for i in range(last + 1, len(en)):
             if en[i] < 2:
                 continue
+            isfoc = bool(foc[i]) if i < len(foc) else False
             if used + cost[i] > point["bound"]:
-                continue
+                if not (fb and used + cost[i] <= fb and point.get("allfocus") and isfoc):
+                    continue
+                st["focus_schedules"] = st.get("focus_schedules", 0) + en[i] - 1
             for alt in range(1, en[i]):
                 submit({"prog": point["prog"], "sched": point["sched"] + [[i, alt]], "bound": point["bound"],
-                        "expect": [i, dig[i]]})
+                        "expect": [i, dig[i]], "fbound": fb, "allfocus": bool(point.get("allfocus")) and isfoc})
     run.dynamic("schedules", initial, "run", on_result)
     run.extra.update({"states": st["states"], "transitions": st["transitions"],
                       "traces_validated_against_impl": st["transitions"],
                       "max_points_per_execution": st["max_points"],
+                      "schedules_beyond_bound_at_focus_points": st.get("focus_schedules", 0),
                       "schedules": st["transitions"]})
 
 
@@ -195,6 +209,12 @@ def part_file_bodies():
     return [body(0), body(1)], fmd
 
 
+def _fmd_struct(fmd):
+    """the shared metadata object as a plain structure (field order of the serialisation is not compared)"""
+    from mc.specpq.thrift import codec
+    return codec().decode("FileMetaData", fmd.to_bytes(), tolerate=("empty_list_type0",))[0]
+
+
 def run(point):
     import fastparquet
     from mc.sched import Execution, prefix_digests
@@ -210,14 +230,18 @@ def run(point):
         bodies, fmd = part_file_bodies()
         expected = _STATE[key]
         pf = None
+        shared = [fmd]
+        fmd_before = _fmd_struct(fmd)
     else:
         expected = [sequential(op) for op in prog]
         reset_caches()
         pf = fastparquet.ParquetFile(path)
         bodies = [op_body(op, pf) for op in prog]
-    ex = Execution(bodies, sched, FILES, expect=tuple(point["expect"]) if point.get("expect") else None).run()
+        shared = [pf] + [v for v in vars(pf).values() if not isinstance(v, (str, bytes, int, float, bool, type(None)))]
+    ex = Execution(bodies, sched, FILES, expect=tuple(point["expect"]) if point.get("expect") else None,
+                   shared=shared if point.get("fbound") else ()).run()
     npts = len(ex.enabled_n)
-    out = {"enabled_n": ex.enabled_n, "cost": ex.preempt_cost, "digests": prefix_digests(ex.trace),
+    out = {"enabled_n": ex.enabled_n, "cost": ex.preempt_cost, "digests": prefix_digests(ex.trace), "focus": ex.focus,
            "counts": {"points": npts}, "nontrivial": len(sched) > 0 or npts > 0}
     sig = {"prog": "+".join(prog)}
     where = ""
@@ -254,6 +278,13 @@ def run(point):
         if res[1] != exp:
             return bad("wrong_result", "thread %d (%s) returned a result different from its sequential result" % (t, prog[t]),
                        thread_op=prog[t])
+    if pf is None:
+        try:
+            same = _fmd_struct(fmd) == fmd_before
+        except Exception as e:
+            return bad("shared_metadata_disturbed", "after the run the shared metadata object cannot be serialised: %s" % e)
+        if not same:
+            return bad("shared_metadata_disturbed", "after the run the shared metadata object differs from before")
     if pf is not None:
         try:
             after = canon_df(pf.to_pandas())
